@@ -32,11 +32,12 @@ Record Ops (T : Type) := mkOps {
   o_of_nat : nat -> T;            (* array sizes entering np.mean and grad / nf *)
   o_pdf : T -> T;                 (* standard normal density *)
   o_cdf : T -> T;                 (* standard normal cdf *)
-  o_pow : T -> T -> T             (* np.power(x, y), x > 0 *)
+  o_pow : T -> T -> T;            (* np.power(x, y), x > 0 *)
+  o_sqrt : T -> T                 (* np.sqrt (ensemble variance -> std) *)
 }.
 Arguments o_zero {T}. Arguments o_one {T}. Arguments o_add {T}. Arguments o_sub {T}.
 Arguments o_mul {T}. Arguments o_div {T}. Arguments o_opp {T}. Arguments o_max {T}.
-Arguments o_of_nat {T}. Arguments o_pdf {T}. Arguments o_cdf {T}. Arguments o_pow {T}.
+Arguments o_of_nat {T}. Arguments o_pdf {T}. Arguments o_cdf {T}. Arguments o_pow {T}. Arguments o_sqrt {T}.
 
 (* constants of the implementation (module constants / constructor arguments) *)
 Record Cfg (T : Type) := mkCfg {
@@ -182,6 +183,38 @@ Definition cei_head_grad (means : list T) (std : T) (bests : list (option T))
      k_dstd_c := postprocess (tabulate n (fun j =>
                    sel j (fun b => ((- fei b j) * mos j) * phic j) ((- mos j) * phic j))) 1 |}.
 
+(* ---------------- HyperTune ensemble over rung levels --------------------- *)
+(* gpautograd/hypertune/posterior_state.py  HyperTuneIndependentGPPosteriorState.predict (same loop in
+   HyperTuneJointGPPosteriorState.predict):
+       means, variances = 0, 0
+       for resource, theta in self.ensemble_distribution.items():
+           _means, _variances = self._states[resource].predict(test_features)
+           means = _means * theta + means
+           variances = _variances * (theta * theta) + variances
+   one input point, no fantasies; a level is (theta_r, mu_r, var_r) *)
+Fixpoint ens_acc (levels : list (T * T * T)) (acc : T * T) : T * T :=
+  match levels with
+  | [] => acc
+  | (theta, mu, var) :: r => ens_acc r ((mu * theta) + fst acc, (var * (theta * theta)) + snd acc)
+  end.
+Definition ens_predict (levels : list (T * T * T)) : T * T := ens_acc levels (o_zero O, o_zero O).
+
+(* posterior_state.py backward_gradient_given_predict: the scalar whose gradient w.r.t. the input is
+   returned (head gradients hg_mean, hg_std; de-normalisation mean_data, std_data):
+       pred_mean = norm_mean * std_data + mean_data;  pred_std = sqrt(norm_variance) * std_data
+       sum(pred_mean * hg_mean) + sum(pred_std * hg_std) *)
+Definition backward_target (pred : T * T) (hg_mean hg_std mean_data std_data : T) : T :=
+  (((fst pred * std_data) + mean_data) * hg_mean) + ((o_sqrt O (snd pred) * std_data) * hg_std).
+
+(* what the gradient of [backward_target (ens_predict ...)] along one input coordinate must be, given each
+   level's d mu_r / dx and d var_r / dx ([dlevels] = (theta_r, dmu_r, dvar_r)): the chain rule through
+   std = sqrt(sum theta_r^2 var_r).  (The clean code obtains it by autograd through [predict].) *)
+Definition ens_backward (levels dlevels : list (T * T * T)) (hg_mean hg_std std_data : T) : T :=
+  let var := snd (ens_predict levels) in
+  let d := ens_predict dlevels in
+  ((fst d * std_data) * hg_mean) +
+  (((snd d / ((o_one O + o_one O) * o_sqrt O var)) * std_data) * hg_std).
+
 End Heads.
 
 (* replace element k of a list (the argument a partial derivative varies) *)
@@ -198,7 +231,7 @@ Definition gauss_pdf (u : R) : R := (exp (- (u * u) / 2) / sqrt (2 * PI))%R.
 Definition ROps (Phi pdf : R -> R) : Ops R :=
   {| o_zero := 0%R; o_one := 1%R; o_add := Rplus; o_sub := Rminus; o_mul := Rmult; o_div := Rdiv;
      o_opp := Ropp; o_max := Rmax; o_of_nat := INR; o_pdf := pdf; o_cdf := Phi;
-     o_pow := fun x y => exp (y * ln x) |}.
+     o_pow := fun x y => exp (y * ln x); o_sqrt := sqrt |}.
 
 (* ---------------- instance: binary64 ------------------------------------ *)
 (* look-up of a recorded library value: entry with the key nearest to x *)
@@ -224,4 +257,4 @@ Definition FOps (tpdf tcdf tpow : list (float * float)) : Ops float :=
      o_max := fun a b => if PrimFloat.ltb a b then b else a;
      o_of_nat := float_of_nat;
      o_pdf := lookup tpdf; o_cdf := lookup tcdf;
-     o_pow := fun x _ => lookup tpow x |}.
+     o_pow := fun x _ => lookup tpow x; o_sqrt := PrimFloat.sqrt |}.
